@@ -8,7 +8,7 @@ mkdir -p /tmp/wt
 git -C /repo worktree add --detach "$dir" HEAD >/dev/null 2>&1
 cp /repo/src/grid/_version.py "$dir/src/grid/_version.py" 2>/dev/null
 echo "== demo on clean HEAD:"; (cd "$dir" && PYTHONPATH="$dir/src" timeout 900 /venv/bin/python -W ignore "$sd/demo_$ab.py" 2>&1 | tail -3; echo "exit=$?")
-if ! git -C "$dir" apply "$sd/$ab.diff"; then echo "PATCH DOES NOT APPLY"; git -C /repo worktree remove --force "$dir"; exit 3; fi
+if ! git -C "$dir" apply "$sd/$ab.diff" && ! git -C "$dir" apply -C1 "$sd/$ab.diff" && ! (cd "$dir" && patch -p1 --fuzz=3 < "$sd/$ab.diff" >/dev/null); then echo "PATCH DOES NOT APPLY"; git -C /repo worktree remove --force "$dir"; exit 3; fi
 echo "== demo on patched tree:"; (cd "$dir" && PYTHONPATH="$dir/src" timeout 900 /venv/bin/python -W ignore "$sd/demo_$ab.py" 2>&1 | tail -3)
 echo "== check $pid on patched tree:"; VERIF_GRID_SRC="$dir/src" VERIF_NO_EVIDENCE=1 /verif/check "$pid" 2>&1 | grep -E "VIOLATION|key=|HARNESS|^\[" | cut -c1-260 | head -12
 if [ "$4" = "suite" ]; then echo "== suite:"; (cd "$dir" && PYTHONPATH="$dir/src" /venv/bin/python -m pytest -q -p no:cacheprovider -n 8 --timeout=900 src/grid/tests 2>&1 | tail -1); fi
